@@ -95,7 +95,7 @@ class TokenStream:
     @property
     def remaining_part_of_current_line_is_empty(self) -> bool:
         remaining = self.remaining_part_of_current_line
-        return not remaining or remaining.isspace()
+        return _is_empty_or_only_space(remaining)
 
     def consume_remaining_part_of_current_line_as_string(self) -> str:
         """
@@ -164,7 +164,7 @@ class TokenStream:
                 return ret_val
             else:
                 ret_val = self._source[self._start_pos:new_line_pos]
-                if ret_val and not ret_val.isspace():
+                if not _is_empty_or_only_space(ret_val):
                     self._source_io.seek(new_line_pos + additional)
                     # The lexer has state that depends on what it has read -
                     # e.g., it gives no more tokens once it has reached the end of the source.
@@ -179,3 +179,14 @@ class TokenStream:
         pos = self._source_io.tell()
         if self._source[pos - 1] == '\n':
             self._source_io.seek(pos - 1)
+
+
+def _is_empty_or_only_space(s: str) -> bool:
+    """
+    Space is what separates tokens (not what str.isspace gives, which includes e.g. NO-BREAK SPACE and FORM FEED -
+    a string made up of such characters is a token).
+    """
+    return not s.strip(_TOKEN_SEPARATORS)
+
+
+_TOKEN_SEPARATORS = ' \t\r\n'
